@@ -157,6 +157,19 @@ CLAIMED["C15"] = dict(
          "vanish. Four genuine defects repaired (fix: commits). Inputs are sampled.",
     note=TB + "Model hypotheses (spin-conservation filter for ERI/t-amplitudes/Coulomb, V = v - v, beta->alpha relabelling for restricted) are stated harness-side; no Lean theorem for the restricted clause. Registered intermediates' declared spin blocks are not covered.")
 
+CLAIMED["C14"] = dict(
+    category="translation_validation", design="DESIGN.md §4 C14",
+    technique="re-contraction / linearisation built by the harness with the documented normalisation and validated against the input by the proved Lean checker checkEquiv; block symmetry validated per group element; group order by the Lean canonicaliser",
+    text="remove_tensor: the returned blocks are re-contracted with the canonical block tensor and c_B = [2 if bra-ket symmetric]/|G_B| "
+         "(ADC amplitudes: sqrt convention), |G_B| computed by brute force with the Lean canonicaliser; the result must be accepted by "
+         "checkEquiv as equal to the input, and every block expression must be mapped onto +-itself by every element of G_B. derivative: "
+         "the blocks contracted with a variation tensor of the same symmetry must be accepted as equal to the product-rule linearisation "
+         "of the input. By checkEquiv_sound each accepted check holds for all tensor values, orbital models and target assignments. "
+         "Two genuine defects repaired. Inputs are sampled; restrictions listed in level_note.",
+    note=TB + "Trusted glue: the construction of the re-contraction/linearisation (harness/props/c14.py). Not judged: remove_tensor on terms "
+         "containing the tensor more than once, the derivative when the tensor carries target or repeated indices, Einstein-convention inputs "
+         "whose tensor indices occur more than twice (documented limitation of the convention), cases slower than the per-case time limit.")
+
 PENDING = {
 }
 
